@@ -72,8 +72,16 @@ type Item struct {
 type Bag struct {
 	A    int64    `graphql:"a"`
 	Tags []string `graphql:"tags"`
-	W    *World   `graphql:"-"`
+	// scalar lists whose Go value does not marshal like the list of its
+	// elements: a named byte slice is a list of small integers, a list of byte
+	// strings has base64 entries ("" for a nil one)
+	Sig    Digest   `graphql:"sig"`
+	Chunks [][]byte `graphql:"chunks"`
+	W      *World   `graphql:"-"`
 }
+
+// Digest is a named slice of bytes: to GraphQL a list of integers.
+type Digest []uint8
 
 // Thing is a union of Node and Leaf.
 type Thing struct {
@@ -268,6 +276,19 @@ func NodeBags(n *Node, _ NoArgs) []Bag {
 		b := Bag{A: int64(hh % 50), W: n.W}
 		for j := 0; j < int(hh>>8%3); j++ {
 			b.Tags = append(b.Tags, fmt.Sprintf("g%d", (hh>>(12+4*uint(j)))%6))
+		}
+		for j := 0; j < int(hh>>24%4); j++ {
+			b.Sig = append(b.Sig, uint8(hh>>(28+3*uint(j))))
+		}
+		for j := 0; j < int(hh>>40%4); j++ {
+			switch (hh >> (44 + 2*uint(j))) % 4 {
+			case 0:
+				b.Chunks = append(b.Chunks, nil)
+			case 1:
+				b.Chunks = append(b.Chunks, []byte{})
+			default:
+				b.Chunks = append(b.Chunks, []byte(fmt.Sprintf("c%d", hh>>(50+uint(j))%7)))
+			}
 		}
 		out = append(out, b)
 	}
